@@ -5,17 +5,19 @@ use ddo::*;
 use crate::table::*;
 
 pub struct Cfg { pub par: bool, pub threads: usize, pub ctor_threads: usize, pub flv: i128, pub cache: bool, pub fringe: i128, pub width: usize,
-                 pub cutk: usize, pub dom: bool, pub primal: Option<(isize, Vec<Decision>)> }
+                 pub cutk: usize, pub dom: bool, pub primal: Vec<(isize, Vec<Decision>)> }
 
 /// `S par threads ctorthreads flv cache fringe width cutoffk dom hasprimal pv plen (var val)*`
 pub fn parse_cfg(l: &str) -> Cfg {
     let v = crate::simple::ints(l);
-    let mut primal = None;
-    if v[9] != 0 {
-        let pv = v[10] as isize; let plen = v[11] as usize;
-        let mut p = vec![]; let mut k = 12;
+    // v[9] = number of primals; each: value, length, (var val)*
+    let mut primal = vec![];
+    let mut k = 10;
+    for _ in 0..(v[9] as usize) {
+        let pv = v[k] as isize; let plen = v[k + 1] as usize; k += 2;
+        let mut p = vec![];
         for _ in 0..plen { p.push(Decision { variable: Variable(v[k] as usize), value: v[k+1] as isize }); k += 2; }
-        primal = Some((pv, p));
+        primal.push((pv, p));
     }
     Cfg { par: v[0] != 0, threads: v[1] as usize, ctor_threads: v[2] as usize, flv: v[3], cache: v[4] != 0, fringe: v[5], width: v[6] as usize,
           cutk: v[7] as usize, dom: v[8] != 0, primal }
@@ -24,7 +26,7 @@ pub fn parse_cfg(l: &str) -> Cfg {
 macro_rules! run_solver {
     ($solver:expr, $cfg:expr, $cutoff:expr) => {{
         let mut s = $solver;
-        if let Some((pv, p)) = &$cfg.primal { s.set_primal(*pv, p.clone()); }
+        for (pv, p) in $cfg.primal.iter() { s.set_primal(*pv, p.clone()); }
         let c = s.maximize();
         let g = s.gap();
         format!("x={} cv={} bv={} lb={} ub={} sol={} explored={} polls={} gap={}", c.is_exact as u8, opt_str(c.best_value), opt_str(s.best_value()),
